@@ -1,7 +1,167 @@
-From Coq Require Import List NArith ZArith.
-From TX Require Import Model.Routing Proofs.Routing Proofs.SideC09 Gen.C09.
+(* Properties/C09.v — C09: a waiting tunnel is routable from any node until served or expired.
+   Statements only; every proof is a single `exact`.  Model: Model/Routing.v (RoutingTable of
+   internal/protocol/session/tunnel/routing.go over an abstract TTL store standing for memory / Redis / hybrid
+   storage).  Quantified over: every configuration c that meets the written hypotheses (the real deployments do:
+   C09_deployments_meet_hypotheses, from the regenerated key layout and hybrid prefix tables), every start state,
+   every record (all ten fields, any strings and integers), every node, EVERY history h of register / lookup /
+   remove / tick / node-address operations by any nodes on any ids (no length bound), every post-deadline behaviour
+   of the backend (keep) and every codec (enc/dec/...) — the hypotheses on external code are written out:
+     dec (enc r) = Some r       (Go encoding/json on tunnel.WaitingState; exercised field by field by the tie)
+   Two clocks: now = time.Now() on the nodes, bnow = the shared backend's expiry clock. *)
+From Coq Require Import List NArith ZArith Bool.
+Import ListNotations.
+From TX Require Import Base.Val Model.Routing Proofs.Routing Proofs.RoutingRefine Proofs.SideC09 Gen.C09.
+Open Scope N_scope.
+
+(* (1) lookup_exact.  After RegisterWaitingTunnel(r) on node n1 at time T, along every history that does not
+   register/remove the same id, a lookup from ANY node n2 returns exactly r with CreatedAt = T and
+   ExpiresAt = T + ttl (all ten fields), as long as the node clock has not passed ExpiresAt and the backend's
+   clock has not advanced by more than ttl. *)
+Theorem C09_routable_from_any_node :
+  forall gstr enc dec decm of_addr to_addr keep c s n1 r h n2,
+  keys_disjoint c -> c_route c (wait_key c (w_tunnel r)) = true -> c_ttl c <> 0 -> w_tunnel r <> [] ->
+  let r' := stamp r (now gstr s) (now gstr s + c_ttl c) in
+  dec (enc r') = Some r' ->
+  Forall (fun o => ~ sets_tunnel (w_tunnel r) o) h ->
+  let s2 := final gstr enc dec decm of_addr to_addr keep c
+                  (fst (step gstr enc dec decm of_addr to_addr keep c s (ORegister n1 r))) h in
+  now gstr s2 <= now gstr s + c_ttl c -> bnow gstr s2 <= bnow gstr s + c_ttl c ->
+  lookup gstr enc dec decm of_addr to_addr keep c s2 n2 (w_tunnel r) = ROk r'.
+Proof. exact routable_from_any_node. Qed.
+Print Assumptions C09_routable_from_any_node.
+
+(* the same at the level of storage cells (covers a deployment WITHOUT shared cache: every node that reads the cell
+   the registering node wrote - there: only that node - gets the record) *)
+Theorem C09_lookup_exact_same_cell :
+  forall gstr enc dec decm of_addr to_addr keep c s n1 r h n2,
+  c_ttl c <> 0 -> w_tunnel r <> [] ->
+  let r' := stamp r (now gstr s) (now gstr s + c_ttl c) in
+  dec (enc r') = Some r' ->
+  let cl := cell_of c n1 (wait_key c (w_tunnel r)) in
+  cell_of c n2 (wait_key c (w_tunnel r)) = cl ->
+  Forall (fun o => sets c o <> Some cl) h ->
+  let s2 := final gstr enc dec decm of_addr to_addr keep c
+                  (fst (step gstr enc dec decm of_addr to_addr keep c s (ORegister n1 r))) h in
+  now gstr s2 <= now gstr s + c_ttl c -> clk gstr s2 cl <= clk gstr s cl + c_ttl c ->
+  step gstr enc dec decm of_addr to_addr keep c s2 (OLookup n2 (w_tunnel r)) = (s2, ROk r').
+Proof. exact lookup_exact. Qed.
+Print Assumptions C09_lookup_exact_same_cell.
+
+(* (2) no_stale, first form.  After Register(r), along every history in which nobody registers the id again
+   (removals, lookups, ticks of BOTH clocks by any amounts, other ids: all allowed), a lookup from any node answers
+   either exactly r - and then ExpiresAt has not passed - or NotFound/Expired.  No hypothesis on the backend: it
+   may keep the key forever (keep, bnow arbitrary); the explicit ExpiresAt check carries the statement. *)
+Theorem C09_never_stale_or_foreign :
+  forall gstr enc dec decm of_addr to_addr keep c s n1 r h n2,
+  keys_disjoint c -> c_route c (wait_key c (w_tunnel r)) = true -> w_tunnel r <> [] ->
+  let r' := stamp r (now gstr s) (now gstr s + c_ttl c) in
+  dec (enc r') = Some r' ->
+  Forall (fun o => ~ writes_tunnel (w_tunnel r) o) h ->
+  let s2 := final gstr enc dec decm of_addr to_addr keep c
+                  (fst (step gstr enc dec decm of_addr to_addr keep c s (ORegister n1 r))) h in
+  (lookup gstr enc dec decm of_addr to_addr keep c s2 n2 (w_tunnel r) = ROk r' /\ now gstr s2 <= now gstr s + c_ttl c)
+  \/ lookup gstr enc dec decm of_addr to_addr keep c s2 n2 (w_tunnel r) = RNotFound
+  \/ lookup gstr enc dec decm of_addr to_addr keep c s2 n2 (w_tunnel r) = RExpired.
+Proof. exact never_stale_or_foreign. Qed.
+Print Assumptions C09_never_stale_or_foreign.
+
+(* (2) no_stale after the waiting period *)
+Theorem C09_gone_after_ttl :
+  forall gstr enc dec decm of_addr to_addr keep c s n1 r h n2,
+  keys_disjoint c -> c_route c (wait_key c (w_tunnel r)) = true -> w_tunnel r <> [] ->
+  let r' := stamp r (now gstr s) (now gstr s + c_ttl c) in
+  dec (enc r') = Some r' ->
+  Forall (fun o => ~ writes_tunnel (w_tunnel r) o) h ->
+  let s2 := final gstr enc dec decm of_addr to_addr keep c
+                  (fst (step gstr enc dec decm of_addr to_addr keep c s (ORegister n1 r))) h in
+  now gstr s + c_ttl c < now gstr s2 ->
+  lookup gstr enc dec decm of_addr to_addr keep c s2 n2 (w_tunnel r) = RNotFound
+  \/ lookup gstr enc dec decm of_addr to_addr keep c s2 n2 (w_tunnel r) = RExpired.
+Proof. exact gone_after_ttl. Qed.
+Print Assumptions C09_gone_after_ttl.
+
+(* (2) no_stale after RemoveWaitingTunnel by any node, until somebody registers the id again *)
+Theorem C09_gone_after_remove :
+  forall gstr enc dec decm of_addr to_addr keep c s n1 t h n2,
+  keys_disjoint c -> c_route c (wait_key c t) = true -> t <> [] ->
+  Forall (fun o => ~ writes_tunnel t o) h ->
+  lookup gstr enc dec decm of_addr to_addr keep c
+         (final gstr enc dec decm of_addr to_addr keep c
+                (fst (step gstr enc dec decm of_addr to_addr keep c s (ORemove n1 t))) h) n2 t = RNotFound.
+Proof. exact gone_after_remove. Qed.
+Print Assumptions C09_gone_after_remove.
+
+(* whatever is stored, a lookup never hands out a record whose ExpiresAt has passed, and a successful lookup changes nothing *)
 Theorem C09_lookup_never_returns_expired :
   forall gstr enc dec decm of_addr to_addr keep c s n t s' r,
-  step gstr enc dec decm of_addr to_addr keep c s (OLookup n t) = (s', ROk r) -> (now _ s <= w_expires r)%N /\ s' = s.
+  step gstr enc dec decm of_addr to_addr keep c s (OLookup n t) = (s', ROk r) ->
+  now gstr s <= w_expires r /\ s' = s.
 Proof. exact lookup_ok_not_expired. Qed.
 Print Assumptions C09_lookup_never_returns_expired.
+
+(* (3) isolation: operations that name other tunnel ids, and node-address operations, never change what a lookup
+   of t answers (any number of them, any nodes; time standing still) *)
+Theorem C09_other_ids_do_not_interfere :
+  forall gstr enc dec decm of_addr to_addr keep c n t h s,
+  keys_disjoint c ->
+  Forall (fun o => ~ mentions_tunnel t o /\ is_tick o = false) h ->
+  lookup gstr enc dec decm of_addr to_addr keep c (final gstr enc dec decm of_addr to_addr keep c s h) n t
+  = lookup gstr enc dec decm of_addr to_addr keep c s n t.
+Proof. exact other_ids_do_not_interfere. Qed.
+Print Assumptions C09_other_ids_do_not_interfere.
+
+(* (4) refinement: from the empty store, for every history whose registered records satisfy the codec and in which
+   the backend clock never runs ahead of the node clock (db <= dn in every tick: keys are not expired early), the
+   answers are those of the specification map  tunnel id -> record with expiry  (Model/Routing.v spec_step) *)
+Theorem C09_refines_expiring_map :
+  forall gstr enc dec decm of_addr to_addr keep (valid : waiting -> Prop),
+  (forall r, valid r -> dec (enc r) = Some r) -> (forall r a b, valid r -> valid (stamp r a b)) ->
+  forall c, keys_disjoint c -> (forall t, c_route c (wait_key c t) = true) -> c_ttl c <> 0 ->
+  forall h, Forall (op_ok valid) h ->
+  map proj (snd (run gstr enc dec decm of_addr to_addr keep c (init gstr) h)) = snd (spec_run (c_ttl c) sp_init h).
+Proof. exact refines_spec. Qed.
+Print Assumptions C09_refines_expiring_map.
+
+(* the real deployments meet the hypotheses on c: all tables on one store, and hybrid.DefaultConfig() with a
+   shared cache - for EVERY tunnel id and node id (regenerated key layout and prefix tables, Proofs/SideC09.v).
+   Without a shared cache the hybrid storage routes the waiting keys to the node-local cache (= false). *)
+Theorem C09_deployments_meet_hypotheses :
+  (forall ttl ident, keys_disjoint (cfg_direct ttl ident) /\ (forall k, c_route (cfg_direct ttl ident) k = true)
+                     /\ c_ttl (cfg_direct ttl ident) <> 0)
+  /\ (forall hs ttl, keys_disjoint (cfg_hybrid hs ttl)
+        /\ (forall t, c_route (cfg_hybrid hs ttl) (wait_key (cfg_hybrid hs ttl) t) = hs)
+        /\ (forall id, c_route (cfg_hybrid hs ttl) (addr_key (cfg_hybrid hs ttl) id) = hs)
+        /\ (forall t, hybrid_pure_shared HybridSharedPersistent HybridShared (wait_key (cfg_hybrid hs ttl) t) = true)
+        /\ c_ttl (cfg_hybrid hs ttl) <> 0).
+Proof. exact (conj direct_meets hybrid_meets). Qed.
+Print Assumptions C09_deployments_meet_hypotheses.
+
+(* "from any node" needs the shared cache: with hybrid storage and no shared cache a tunnel registered on node 0
+   resolves on node 0 and NOT on node 1 (the single-node default deployment has only node 0) *)
+Theorem C09_unshared_cross_node_refuted :
+  let c := cfg_hybrid false 30000000000 in
+  let s1 := fst (ex_step c (init ex_gstr) (ORegister 0 ex_rec)) in
+  ex_lookup c s1 0 (w_tunnel ex_rec) = ROk (stamp ex_rec 0 30000000000)
+  /\ ex_lookup c s1 1 (w_tunnel ex_rec) = RNotFound.
+Proof. exact ex_unshared_cross_node. Qed.
+Print Assumptions C09_unshared_cross_node_refuted.
+
+(* non-vacuity: a concrete codec satisfies the codec hypothesis, and a concrete non-trivial history of the
+   clustered deployment (other ids, node addresses, both clocks ticking) meets the hypotheses of (1)/(2): the record
+   registered on node 0 resolves on node 1 with all ten fields up to the last nanosecond of its waiting period,
+   is Expired one nanosecond later, NotFound once the backend dropped it or a third node removed it *)
+Theorem C09_premises_satisfiable :
+  (forall r, ex_dec (ex_enc r) = Some r) /\
+  let c := cfg_hybrid true 30000000000 in
+  let s1 := fst (ex_step c (init ex_gstr) (ORegister 0 ex_rec)) in
+  let s2 := ex_final c s1 ex_history in
+  Forall (fun o => ~ sets_tunnel (w_tunnel ex_rec) o) ex_history
+  /\ now _ s2 = 29999999000 /\ bnow _ s2 = 29999998900
+  /\ ex_lookup c s2 1 (w_tunnel ex_rec) = ROk (stamp ex_rec 0 30000000000)
+  /\ ex_lookup c (ex_final c s2 [OTick 1000 0]) 1 (w_tunnel ex_rec) = ROk (stamp ex_rec 0 30000000000)
+  /\ ex_lookup c (ex_final c s2 [OTick 1001 0]) 1 (w_tunnel ex_rec) = RExpired
+  /\ ex_lookup c (ex_final c s2 [OTick 0 1101]) 1 (w_tunnel ex_rec) = RNotFound
+  /\ ex_lookup c (ex_final c s2 [ORemove 2 (w_tunnel ex_rec)]) 1 (w_tunnel ex_rec) = RNotFound
+  /\ snd (ex_step c s2 (OGetAddr 1 [110;111;100;101;45;48])) = RAddr [49;48;46;48;46;48;46;49].
+Proof. exact (conj ex_codec ex_run). Qed.
+Print Assumptions C09_premises_satisfiable.
